@@ -42,7 +42,10 @@ def make_code(rng, ctx):
         parts = []
         for _ in range(rng.randint(1, 4)):
             lvl = b'=' * rng.choice((0, 0, 1, 2))
-            body = rng.choice((b'\n\ntext', b'\n\n\n', b'\r\n\r\nx', b'\nx', b'x\n\ny', b']' + b'x', b'a]]b' if lvl else b'ab', b'\x8e\n\x97'))
+            body = rng.choice((b'\n\ntext', b'\n\n\n', b'\r\n\r\nx', b'\nx', b'x\n\ny', b']' + b'x', b'a]]b' if lvl else b'ab', b'\x8e\n\x97',
+                               # (text ending in a bracket, as serialised tables do: the closing level is what keeps it apart)
+                               b'{1,2,[3,4]' if lvl else b'{1,2,[3,4] ', b't[i]' if lvl else b't[i', b'x]=]' if len(lvl) == 2 else b'x=',
+                               b']' if lvl else b'[', b'a[[b]' if lvl else b'a[[b'))
             parts.append(rng.choice((b's=', b'--')) + b'[' + lvl + b'[' + body + b']' + lvl + b']\n')
         return b''.join(parts) + carts.simple_lua(rng, 40)
     if k == 0:
@@ -273,7 +276,17 @@ def _one_cart(ctx, rng, workdir, verbosity):
     refobs = {'regions': {n: (ref[n] if n != 'music' else rc.music_mask(ref[n])) for n, _ in rc.REGIONS},
               'label': ref['label'], 'version': ref['version'], 'code': ref['code']}
     ctx.monitor('reference_reads_compared')
-    compare(ctx, a, refobs, 'write->reference reader', case)
+    if not compare(ctx, a, refobs, 'write->reference reader', case):
+        return
+    # the code of the cart is the text it was given: what comes back is that text token for token (the writer may re-spell a quoted
+    # string, C06; everything else is byte for byte), judged by the reference lexer
+    from .. import reflex
+    from .c06 import compare_echo
+    if not resave and code and reflex.try_lex(code)[1] is None:
+        ctx.monitor('reread_code_compared_with_given_text')
+        compare_echo(ctx, code if (code.endswith(b'\n') or not code) else code + b'\n', b['code'], case, 'code of the re-read cart (vs the text the cart was made from)')
+    else:
+        ctx.feature('given_text_not_compared')
 
 
 def run_shard(spec, ctx):
